@@ -337,7 +337,7 @@ def stress2_extra(pid, mode=None):
                     res["failures"].append(dict(rep, signature="negative-total-under-concurrency", what="total weight used went down to %d during a concurrent run (sweeps, deletes, evictions on the same keys)" % d["min_total_seen"]))
                 if pid == "C01" and d["max_total_seen"] > d["cache_weight"]:
                     res["failures"].append(dict(rep, signature="total-over-limit-under-concurrency", what="total weight used reached %d > cache weight %d during a concurrent run without any weight-changing upsert" % (d["max_total_seen"], d["cache_weight"])))
-                if pid in ("C01", "C05") and d["final_total"] != 0:
+                if pid in ("C01", "C05", "C04") and d["final_total"] != 0:
                     res["failures"].append(dict(rep, signature="weight-left-after-deleting-everything", what="after every key was deleted and acknowledged the total weight used is %d, not 0" % d["final_total"]))
                 if pid in ("C05", "C16") and d["keys_balance"] != 0:
                     res["failures"].append(dict(rep, signature="keys-balance-after-deleting-everything", what="after every key was deleted KeysAdded - KeysDeleted is %d, not 0" % d["keys_balance"]))
@@ -560,7 +560,7 @@ PROPS.update({
                              "overflow-checking (debug) profile"]),
     "C03": dict(module="C03", modules=["C03", "C03_micro"], run=mk("C03", ["roomy", "awaited", "ttl", "ttlchain", "general"], 250, 4000), components=["store", "weights", "admission", "ticker", "api", "queue_worker", "time"],
                 assumptions=["partial: phase-contiguous schedules; 'no memory pressure' is stated per executed put (it fits the free space)"]),
-    "C04": dict(module="C04", modules=["C04", "C04_micro"], run=mk("C04", ["general", "ttl", "awaited", "queue1", "expired"], 270, 4000, extra=micro_extra("C04")), components=["store", "api", "queue_worker", "weights", "ticker"]),
+    "C04": dict(module="C04", modules=["C04", "C04_micro"], run=mk("C04", ["general", "ttl", "awaited", "queue1", "expired"], 270, 4000, extra=micro_extra("C04", stress2_extra("C04"))), components=["store", "api", "queue_worker", "weights", "ticker"]),
     "C05": dict(module="C05", modules=["C05", "C05_micro", "C05_ledger"], run=mk("C05", ["general", "queue1", "ttl", "evict", "evict2"], 250, 4000, extra=micro_extra("C05", stress_quiescent_extra("C05", stress2_extra("C05")))), components=["weights", "store", "api", "queue_worker", "ticker", "admission"]),
     "C06": dict(module="C06", run=mk("C06", ["evict2", "evict", "general"], 270, 4000, extra=kernel_extra("C06", ["sampled_key_cmp", "is_space_available_for"])), components=["admission", "weights", "sketch", "tinylfu", "store"]),
     "C07": dict(module="C07", modules=["C07", "C07_micro"], run=mk("C07", ["general", "ttl", "awaited", "expired"], 260, 4000, extra=micro_extra("C07", stress2_extra("C07", "nottl"), profiles=("general", "ttl", "awaited", "queue1"))), components=["store", "api", "time", "queue_worker"]),
